@@ -9,6 +9,7 @@ import (
 	"verifharness/ec"
 	"verifharness/ka"
 	"verifharness/kms"
+	"verifharness/pl"
 	"verifharness/rp"
 	"verifharness/vk"
 )
@@ -27,6 +28,7 @@ var checks = map[string]func(*vk.Run){
 	"C17": rp.RunC17,
 	"C20": kms.RunC20,
 	"C16": disc.RunC16,
+	"C19": pl.RunC19,
 }
 
 func main() {
